@@ -516,6 +516,14 @@ func c13Drivers() []*icCfg {
 	epi := []icOp{S(2), L(1), {Kind: "wait"}}
 	return []*icCfg{
 		{Name: "F1-three-callers", O: big, Loading: true, LoadCost: 2, LoadTTL: 60 * sec, Scripts: [][]icOp{{L(1)}, {L(1)}, {L(1)}}, Post: epi},
+		// a cost function that cannot rate the zero value a FAILED load returns (a nil pointer, say): the callers must get the
+		// loader's error, not the cost function's panic
+		{Name: "F2c-error-with-cost-function", O: hOpts{MaxSize: 10, ChanSize: 4, BufSize: 2, Cost: func(v int) int64 {
+			if v == 0 {
+				panic("loader panic: cost function called on the zero value of a failed load")
+			}
+			return 1
+		}}, Loading: true, LoadPlan: []string{"err"}, Scripts: [][]icOp{{L(1), L(1)}, {L(1)}}, Post: epi},
 		{Name: "F2-error", O: big, Loading: true, LoadCost: 1, LoadPlan: []string{"err"}, Scripts: [][]icOp{{L(1), L(1)}, {L(1)}}, Post: epi},
 		{Name: "F3n-panic-nil", O: big, Loading: true, LoadCost: 1, LoadPlan: []string{"panicnil"}, Scripts: [][]icOp{{L(1)}, {L(1)}, {S(2)}}, Post: epi},
 		{Name: "F3-panic", O: big, Loading: true, LoadCost: 1, LoadPlan: []string{"panic"}, Scripts: [][]icOp{{L(1)}, {L(1)}, {S(2)}}, Post: epi},
